@@ -1325,16 +1325,20 @@ def generate(ctx: Ctx, scale: int, rng, thorough=False):
             ctx.case(("zone", zi, str(st), rel), sample=c if len(recs) < 8 else None)
             eval_case(ctx, c)
     if thorough:
-        # full product of the boolean / small knobs on a small zone
+        # full product of the on/off knobs (and the $TTL knob, the owner column width) on a small zone, both relativities
         import itertools
         origin = ORIGINS[0]
         recs = recs_to_case(gen_zone_records(rng, origin, ORACLE_TYPES, nnames=3))
-        small = [(k, v[:2] if k in ("nj", "tj", "cj", "yj", "hc", "bc") else v) for k, v in KNOBS if k not in ("hs", "bs")]
-        small = [(k, sorted(set(map(str, v)), key=str) and v) for k, v in small]
-        for combo in itertools.product(*[range(len(v)) for _, v in small]):
-            st = {small[i][0]: small[i][1][j] for i, j in enumerate(combo)}
+        recs_f = recs_to_case(gen_zone_records(rng, origin, ORACLE_TYPES, nnames=3, foreign=True))
+        full = [("sorted", [True, False]), ("wo", [False, True]), ("dttl", [None, "zone", 12345]), ("dedup", [False, True]),
+                ("nj", [0, -24]), ("gen", [False, True]), ("com", [False, True]), ("oc", [False, True]),
+                ("so", ["none", "zone"]), ("sr", [False, True])]
+        base = {"tj": -7, "cj": 4, "yj": -8, "hc": 16, "hs": " ", "bc": 4, "bs": " "}
+        for combo in itertools.product(*[range(len(v)) for _, v in full]):
+            st = dict(base)
+            st.update({full[i][0]: full[i][1][j] for i, j in enumerate(combo)})
             for rel in (True, False):
-                c = {"kind": "zone", "origin": hexl(origin), "rel": rel, "recs": recs, "style": st}
+                c = {"kind": "zone", "origin": hexl(origin), "rel": rel, "recs": recs_f if st["gen"] else recs, "style": st}
                 ctx.case(("zonefull", str(st), rel), sample=None)
                 eval_case(ctx, c)
 
@@ -1388,11 +1392,19 @@ def impl_of_op(op: str):
 
 LEVEL = {
     "text": "Lean 4 theorems over executable models of dns/tokenizer.py, dns/ttl.py, dns/grange.py, dns/zonefile.py and the "
-            "zone/node/rdataset text writer; tied to the code by a differential correspondence check on token streams, loaded "
-            "zones and written text, and by tables (delimiters, mnemonics, CNAME/neutral/singleton types) regenerated from the working tree.",
+            "zone/node/rdataset text writer: layout independence of the tokenizer (parentheses, newlines, comments, tabs; identifiers with "
+            "escapes and quoted strings), TTL decimal and BIND8-unit forms, the reader as the denotation (fold of txn.add) of a "
+            "zone-independent parser trace, header spelling equivalences (TTL/class order, inherited class/TTL/owner, relative vs absolute "
+            "names) at character level, out-of-zone owners ignored, CNAME exclusivity as an invariant of every load, one canonical record line "
+            "read as one record, $GENERATE index = its expansion line, and write-then-read = identity for the plain style (sorted on/off, "
+            "relativized and absolute) over an abstract RDATA codec (C05 interface) with an A-record instance; tied to the code by a differential "
+            "correspondence check on token streams, loaded zones and written text, and by tables (delimiters, mnemonics, CNAME/neutral/singleton "
+            "types, escaped sets) regenerated from the working tree and fed to the theorems.",
     "note": "Trusted: Lean kernel + propext/Classical.choice/Quot.sound; statements in lean/Props/C09.lean; the correspondence harness "
-            "and its generators; harness/extract_C09.py. RDATA text of types other than A/NS/CNAME/PTR/MX/TXT/SOA/generic is the C05 interface "
-            "(abstract token-safe string in the theorems; checked per rdata by the oracle).",
+            "and its generators; harness/extract_C09.py. Tie-only (correspondence + write/read oracle, no theorem): the other lossless style "
+            "knobs (want_origin, $TTL/default_ttl, deduplicate_names, justification, chunking, comments, want_generic, omit_rdclass, name style "
+            "origin/relativize), the text produced by $GENERATE substitution (_parse_modify/_format_index), RDATA codecs other than A. "
+            "want_generic is a recorded finding (D08, write and read side); the model carries both variants and follows the one the code implements.",
     "technique": "Lean 4 proof (structural induction over the tokenizer automaton and the line list, refinement of the reader to a "
                  "denotational interp) + model-vs-implementation correspondence + direct write/read oracle",
     "design_ref": "DESIGN.md §7 C09",
